@@ -378,8 +378,11 @@ class Check:
             "wall_s": round(time.time() - self.t0, 2),
             "violations": n_viol,
         }
-        os.makedirs(os.path.join(VERIF, "evidence"), exist_ok=True)
-        with open(os.path.join(VERIF, "evidence", self.prop + ".json"), "w") as f:
+        # evidence/ only ever describes runs against /repo itself; self-test runs against scratch trees
+        # (VERIF_REPO) are written to the git-ignored work/ directory
+        edir = os.path.join(VERIF, "evidence") if os.path.realpath(REPO) == "/repo" else os.path.join(VERIF, "work", "evidence-scratch")
+        os.makedirs(edir, exist_ok=True)
+        with open(os.path.join(edir, self.prop + ".json"), "w") as f:
             json.dump(ev, f, indent=1, default=str)
 
 
